@@ -47,105 +47,7 @@ pub assume_specification<T, A: Allocator, F: FnMut(&T) -> bool> [Vec::<T, A>::re
     ensures forall|p: spec_fn(T) -> bool| (forall|x: &T, b: bool| #[trigger] f.ensures((x,), b) ==> b == p(*x))
         ==> final(v)@ == #[trigger] old(v)@.filter(p);
 
-// ---- specification, from the text of C06 ---------------------------------------------------------------------------------
-/// the length of the text a token matched
-pub open spec fn tok_len<'i, I: Input + ?Sized, TK>(t: Token<'i, I, TK>) -> usize { t.value.v_len() }
-
-/// m is the length of a longest candidate
-pub open spec fn is_longest<'i, I: Input + ?Sized, TK>(ts: Seq<Token<'i, I, TK>>, m: usize) -> bool {
-    &&& exists|i: int| 0 <= i < ts.len() && tok_len(#[trigger] ts[i]) == m
-    &&& forall|j: int| 0 <= j < ts.len() ==> tok_len(#[trigger] ts[j]) <= m
-}
-
-/// "the longest match": the candidates no other candidate is longer than, in their original (grammar) order
-pub open spec fn keep_longest<'i, I: Input + ?Sized, TK>(ts: Seq<Token<'i, I, TK>>) -> Seq<Token<'i, I, TK>> {
-    ts.filter(|t: Token<'i, I, TK>| forall|j: int| 0 <= j < ts.len() ==> tok_len(#[trigger] ts[j]) <= tok_len(t))
-}
-
-/// LR: longest match (this range runs only when it is enabled); grammar order is applied by the caller (`.next()`)
-pub open spec fn lr_disamb<'i, I: Input + ?Sized, TK>(ts: Seq<Token<'i, I, TK>>) -> Seq<Token<'i, I, TK>> {
-    if ts.len() > 1 { keep_longest(ts) } else { ts }
-}
-
-/// GLR: longest match if enabled, then the first in grammar order if enabled; a disabled strategy keeps everything
-pub open spec fn glr_disamb<'i, I: Input + ?Sized, TK>(ts: Seq<Token<'i, I, TK>>, longest: bool, order: bool) -> Seq<Token<'i, I, TK>> {
-    if ts.len() > 1 {
-        let a = if longest { keep_longest(ts) } else { ts };
-        if order && a.len() > 1 { a.subrange(0, 1) } else { a }
-    } else { ts }
-}
-
-pub proof fn lemma_filter_ext<A>(s: Seq<A>, p: spec_fn(A) -> bool, q: spec_fn(A) -> bool)
-    requires forall|i: int| 0 <= i < s.len() ==> p(#[trigger] s[i]) == q(s[i]),
-    ensures s.filter(p) == s.filter(q),
-    decreases s.len(),
-{
-    reveal(Seq::filter);
-    if s.len() > 0 {
-        lemma_filter_ext(s.drop_last(), p, q);
-    }
-}
-
-/// filtering by "as long as the longest" is keep_longest
-pub proof fn lemma_keep_longest<'i, I: Input + ?Sized, TK>(ts: Seq<Token<'i, I, TK>>, m: usize)
-    requires is_longest(ts, m),
-    ensures ts.filter(|t: Token<'i, I, TK>| tok_len(t) == m) == keep_longest(ts),
-{
-    let p = |t: Token<'i, I, TK>| tok_len(t) == m;
-    let q = |t: Token<'i, I, TK>| forall|j: int| 0 <= j < ts.len() ==> tok_len(#[trigger] ts[j]) <= tok_len(t);
-    assert forall|i: int| 0 <= i < ts.len() implies p(#[trigger] ts[i]) == q(ts[i]) by {
-        let k = choose|k: int| 0 <= k < ts.len() && tok_len(#[trigger] ts[k]) == m;
-        if q(ts[i]) { assert(tok_len(ts[k]) <= tok_len(ts[i])); }
-    }
-    lemma_filter_ext(ts, p, q);
-}
-
-/// C06 sanity: the longest match keeps at least one candidate, only candidates, and every kept one is a longest one
-pub proof fn lemma_keep_longest_sound<'i, I: Input + ?Sized, TK>(ts: Seq<Token<'i, I, TK>>, m: usize)
-    requires is_longest(ts, m),
-    ensures keep_longest(ts).len() >= 1,
-        forall|i: int| 0 <= i < keep_longest(ts).len() ==> ts.contains(#[trigger] keep_longest(ts)[i]) && tok_len(keep_longest(ts)[i]) == m,
-{
-    let q = |t: Token<'i, I, TK>| forall|j: int| 0 <= j < ts.len() ==> tok_len(#[trigger] ts[j]) <= tok_len(t);
-    let k = choose|k: int| 0 <= k < ts.len() && tok_len(#[trigger] ts[k]) == m;
-    assert(q(ts[k]));
-    lemma_filter_has(ts, q, k);
-    lemma_filter_members(ts, q);
-    assert forall|i: int| 0 <= i < keep_longest(ts).len() implies ts.contains(#[trigger] keep_longest(ts)[i]) && tok_len(keep_longest(ts)[i]) == m by {
-        let x = keep_longest(ts)[i];
-        assert(q(x));
-        assert(tok_len(ts[k]) <= tok_len(x));
-        let j = choose|j: int| 0 <= j < ts.len() && ts[j] == x;
-        assert(tok_len(ts[j]) <= m);
-    }
-}
-pub proof fn lemma_filter_has<A>(s: Seq<A>, p: spec_fn(A) -> bool, k: int)
-    requires 0 <= k < s.len(), p(s[k]),
-    ensures s.filter(p).len() >= 1,
-    decreases s.len(),
-{
-    reveal(Seq::filter);
-    if k < s.len() - 1 { lemma_filter_has(s.drop_last(), p, k); }
-}
-pub proof fn lemma_filter_members<A>(s: Seq<A>, p: spec_fn(A) -> bool)
-    ensures forall|i: int| 0 <= i < s.filter(p).len() ==> p(#[trigger] s.filter(p)[i]) && s.contains(s.filter(p)[i]),
-    decreases s.len(),
-{
-    reveal(Seq::filter);
-    if s.len() > 0 {
-        lemma_filter_members(s.drop_last(), p);
-        assert forall|i: int| 0 <= i < s.filter(p).len() implies p(#[trigger] s.filter(p)[i]) && s.contains(s.filter(p)[i]) by {
-            let sub = s.drop_last().filter(p);
-            if i < sub.len() {
-                assert(s.drop_last().contains(sub[i]));
-                let j = choose|j: int| 0 <= j < s.drop_last().len() && s.drop_last()[j] == sub[i];
-                assert(s[j] == sub[i]);
-            } else {
-                assert(s[s.len() - 1] == s.last());
-            }
-        }
-    }
-}
+//@include lookahead_specs.inc
 
 //@allow external_body xexpr_longest_len: the expression `tokens.iter().max_by_key(|token| token.value.len()).unwrap().value.len()` (Iterator::max_by_key is a provided trait method: Verus accepts no specification for it) moved verbatim into an external function; ASSUMED: it returns the length of a longest candidate of a non-empty vector
 
